@@ -18,6 +18,7 @@ import (
 	mrand "math/rand"
 	"os"
 	"path/filepath"
+	"regexp"
 	"strconv"
 	"strings"
 	"sync"
@@ -88,7 +89,7 @@ func zzvSandbox(t *testing.T) (root, mark string) {
 
 // the stubs find the shell by absolute path (PATH is private)
 const zzvStubRecord = "#!/bin/sh\necho \"$ZZV_CASE $$\" >> \"$ZZV_MARK\"\n"
-const zzvStubHold = "#!/bin/sh\necho \"hold $$\" >> \"$ZZV_MARK\"\nread x\n"
+const zzvStubHold = "#!/bin/sh\necho \"hold $$\" >> \"$ZZV_MARK\"\necho \"pid $$\"\nread x\n"
 
 func zzvStub(path, body string) bool {
 	if strings.HasSuffix(path, "/") || path == "" {
@@ -242,6 +243,8 @@ type zzvClientStream struct {
 	errs  string        // error text
 	closed chan struct{} // WriteStreamClose seen
 	once  sync.Once
+	pid   chan int // the stub announced its process id on stdout
+	out   string
 }
 
 type zzvWriter struct {
@@ -272,6 +275,15 @@ func (w *zzvWriter) WriteStreamData(peerID identity.AgentID, streamID uint64, da
 		return nil
 	}
 	switch mt {
+	case MsgStdout:
+		cs.out += string(payload)
+		if m := zzvPidRe.FindStringSubmatch(cs.out); m != nil && cs.pid != nil {
+			n, _ := strconv.Atoi(m[1])
+			select {
+			case cs.pid <- n:
+			default:
+			}
+		}
 	case MsgAck:
 		if a, err := DecodeAck(payload); err == nil && a.Success {
 			cs.acked = true
@@ -305,25 +317,32 @@ func (w *zzvWriter) WriteStreamClose(peerID identity.AgentID, streamID uint64) e
 	return nil
 }
 
-// number of stub processes that are really alive (not zombies)
-func zzvLive(mark string) int {
-	b, _ := os.ReadFile(mark)
+var zzvPidRe = regexp.MustCompile(`pid (\d+)\r?\n`)
+
+// zzvPids: the process ids announced by the stubs of all streams
+type zzvPids struct {
+	mu   sync.Mutex
+	pids []int
+}
+
+func (p *zzvPids) add(pid int) { p.mu.Lock(); p.pids = append(p.pids, pid); p.mu.Unlock() }
+
+// live: number of announced stub processes that are really alive (not zombies)
+func (p *zzvPids) live() int {
+	p.mu.Lock()
+	pids := append([]int(nil), p.pids...)
+	p.mu.Unlock()
 	n := 0
-	for _, line := range strings.Split(string(b), "\n") {
-		f := strings.Fields(line)
-		if len(f) != 2 || f[0] != "hold" {
-			continue
-		}
-		st, err := os.ReadFile("/proc/" + f[1] + "/stat")
+	for _, pid := range pids {
+		st, err := os.ReadFile("/proc/" + strconv.Itoa(pid) + "/stat")
 		if err != nil {
 			continue
 		}
-		// pid (comm) state ...
-		i := strings.LastIndex(string(st), ")")
+		i := strings.LastIndex(string(st), ")") // pid (comm) state ...
 		if i < 0 || i+2 >= len(st) {
 			continue
 		}
-		if s := st[i+2]; s != 'Z' && s != 'X' {
+		if c := st[i+2]; c != 'Z' && c != 'X' {
 			n++
 		}
 	}
@@ -331,7 +350,8 @@ func zzvLive(mark string) int {
 }
 
 func TestZZVShellTrace(t *testing.T) {
-	root, mark := zzvSandbox(t)
+	root, _ := zzvSandbox(t)
+	pids := &zzvPids{}
 	zzvStub(filepath.Join(root, "bin", "hold"), zzvStubHold)
 	max := zzvEnvInt("ZZV_MAX", 2)
 	workers := zzvEnvInt("ZZV_THREADS", 4)
@@ -378,7 +398,7 @@ func TestZZVShellTrace(t *testing.T) {
 			t.Error(err)
 			return
 		}
-		cs := &zzvClientStream{name: name, key: crypto.DeriveSessionKey(shared, sid+1000, pub, hpub, true), closed: make(chan struct{})}
+		cs := &zzvClientStream{name: name, key: crypto.DeriveSessionKey(shared, sid+1000, pub, hpub, true), closed: make(chan struct{}), pid: make(chan int, 1)}
 		wr.mu.Lock()
 		wr.streams[sid] = cs
 		wr.mu.Unlock()
@@ -412,10 +432,18 @@ func TestZZVShellTrace(t *testing.T) {
 		cs.mu.Unlock()
 		switch res {
 		case "ok":
-			live := zzvLive(mark)
+			// the process really runs once its stub has announced its pid on stdout
+			select {
+			case pid := <-cs.pid:
+				pids.add(pid)
+			case <-time.After(20 * time.Second):
+				t.Errorf("zzv: the process of %s never announced itself", name)
+				return
+			}
+			live := pids.live()
 			for dl := time.Now().Add(3 * time.Second); max > 0 && live > max && time.Now().Before(dl); {
 				time.Sleep(20 * time.Millisecond) // one-sided slack: a killed process may take a moment to disappear
-				live = zzvLive(mark)
+				live = pids.live()
 			}
 			if max > 0 && live > max {
 				stMu.Lock()
@@ -438,7 +466,7 @@ func TestZZVShellTrace(t *testing.T) {
 			t.Errorf("zzv: no answer to the metadata frame of %s", name)
 			return
 		}
-		time.Sleep(time.Duration(rng.Intn(4)) * time.Millisecond)
+		time.Sleep(time.Duration(rng.Intn(16)) * time.Millisecond)
 		how := rng.Intn(3)
 		var wg sync.WaitGroup
 		if how == 0 || how == 2 { // let the process end by itself: the line it is waiting for
